@@ -173,6 +173,12 @@ func (r rng) c18Exp(v *VarSpec) {
 			v.Exp = int32(r.rangeI(-60, 60))
 		}
 	}
+	if n := len(v.Words); n > 0 && n < 40 && r.chance(0.15) {
+		// an integer whose digits fill its mantissa words exactly (no shift needed
+		// to get at the integer part: conversions may be tempted to use the
+		// operand's own words)
+		v.Exp = int32(n * wordDigits)
+	}
 }
 
 // fillParams draws the non-variable parameters of an op.
